@@ -8,6 +8,14 @@ BASE = json.load(open("/root/.vp/BASELINE.json"))
 
 # pid -> (technique, level text, level note, design ref)
 CLAIMED = {
+    "C13": ("TLA+ CircularRecord.tla: TLC over all rotation/reverse-complement sequences on small records + every transition replayed into real CircularRecords + TLC validation of operation chains",
+            "The record algebra is a TLA+ state machine with ghost nucleotide identities; TLC checks that the record is always the image of the original under the composed group element and that features and per-letter tracks follow their nucleotides, every enumerated transition is executed on a real CircularRecord (two coordinate representations) and compared, and random operation chains on real records are validated step by step and against the composed element.",
+            "Record lengths 4-6 exhaustive in the model, 4-40 random in traces.", "6/C13"),
+    "C14": ("TLA+ CircularRecord.tla: RevComp action in the same state machine (TLC) + replayed transitions + TLC validation of chains mixing rotations and reverse complements",
+            "Involution, commutation with rotation and constant spelling are invariants checked by TLC; RevComp transitions are replayed into real records, including pre-states with past-the-end coordinates produced by rotations; chains are validated by denotation.", "Feature table order and compound/simple representation are treated as representation.", "6/C14"),
+    "C15": ("TLA+ CircularRecord.tla operators (OccursCirc, Python slice) + TLC validation of membership/slice/add/wrap traces exhaustive on small records",
+            "Circular membership, linear slices, refusal of + and wrapping are spec operators; TLC recomputes each logged answer: membership for every query length 0..n+2 at every origin and every rotation of small records, every slice bound pair, every operand type on both sides of +, wrapping linear records, aliasing probes.", "Exhaustive on records of length 3-5, random beyond.", "6/C15"),
+
     "C02": ("TLA+ Structure.tla: TLC RotInv on all rotations of small worlds + TLC validation of (record, record >> k) typing traces",
             "Rotation invariance of typing is an invariant of the specification checked by TLC on every plasmid and every rotation of constructed small worlds; the real classes (generic over 26 real + 5 synthetic geometries, user parts, 85 kit classes, registry plasmids) are queried on record and record >> k through the public API and TLC judges each pair, evaluating the unique-match precondition itself.",
             "Small-scope + sampled rotations (boundary-directed); assembly half uses the assembly traces.", "6/C02"),
